@@ -154,8 +154,8 @@ class SeenSet:
         if self.all_seen:
             return True
         if not assignment:
-            self.all_seen = True
-            self.seen.append(assignment)
+            # Full coverage is only recorded (see IndexedCache.mark_covered) once the enumeration it vouches for has
+            # run to completion; recording it here would make an abandoned enumeration look complete.
             return False
         for constraint in self.seen:
             if all(assignment[k] == v if k in assignment else False for k, v in constraint.items()):
@@ -256,6 +256,17 @@ class IndexedCache:
         # if not seen:
         #     self.seen_set.add(assignment)
         return seen
+
+    def mark_covered(self, assignment: Dict) -> None:
+        """
+        Record that all outputs for the given assignment have been inserted, call this only after the enumeration
+        of these outputs has been exhausted. Assignments that bind one of the keys are covered by their inserted
+        entries, so only an assignment that binds none of the keys needs to be recorded.
+
+        :param assignment: The assignment whose outputs were completely enumerated.
+        """
+        if not any(k in assignment for k in self.keys):
+            self.seen_set.add({})
 
     def __getitem__(self, key: Any):
         return self.flat_cache[key]
